@@ -109,6 +109,9 @@ OPERATOR_INPLACE = {"iadd", "isub", "imul", "itruediv", "ifloordiv", "imod", "ip
 NP_INPLACE_FUNCS = {"put", "copyto", "place", "putmask", "fill_diagonal", "put_along_axis", "shuffle"}
 NP_UFUNC_INPLACE_ATTRS = {"at"}          # np.add.at(x, …)
 
+# external base classes known to use plain `type.__call__` construction (no instance caching)
+PLAIN_EXTERNAL_BASES = {"object", "ABC", "ContextDecorator", "AbstractContextManager"}
+
 KINDS = ("subscriptStore", "augSubscript", "augName", "augAttr", "attrStore", "delItem", "delAttr",
          "arrayMethod", "containerMethod", "outKw", "npInplace", "setattrCall")
 PROVS = ("freshLocal", "immutable", "initSelf", "importTime", "ownState", "notFresh")
@@ -633,7 +636,12 @@ class FuncScan:
         for it in st.items:
             self.ev(it.context_expr, env)
             if it.optional_vars is not None:
-                self.bind(it.optional_vars, N, env)
+                v = N
+                ce = it.context_expr
+                if isinstance(ce, ast.Call) and isinstance(ce.func, ast.Name) and ce.func.id not in env \
+                        and self.sc.is_plain_class(ce.func.id) and self.sc.enter_returns_self(ce.func.id):
+                    v = FO      # `with C(...) as y`: y is the object constructed right here
+                self.bind(it.optional_vars, v, env)
         self.run_body(st.body, env)
 
     st_AsyncWith = st_With
@@ -791,6 +799,7 @@ class Scanner:
         self.prev_returns = {}
         self.trees = {}
         self.class_has_new = set()
+        self.class_nodes = {}
 
     # -- class hierarchy (syntactic; cross-checked against the live classes by the harness) ---------
     def index_classes(self):
@@ -806,6 +815,7 @@ class Scanner:
                         elif isinstance(b, ast.Name):
                             bases.append(b.id)
                     self.class_bases[(file, n.name)] = bases
+                    self.class_nodes[(file, n.name)] = n
                     meta = None
                     for kw in n.keywords:
                         if kw.arg == "metaclass":
@@ -846,13 +856,28 @@ class Scanner:
             return False
         for c in {cname} | self.ancestors(cname):
             ds = [(f, c2) for (f, c2) in self.class_bases if c2 == c]
-            if c == "object":
+            if c in PLAIN_EXTERNAL_BASES:
                 continue
             if len(ds) != 1:
                 return False      # unknown / external base class
             if self.class_meta.get(ds[0]) is not None or ds[0] in self.class_has_new:
                 return False
         return True
+
+    def enter_returns_self(self, cname):
+        """True iff the `__enter__` found first along the scanned ancestry of `cname` only ever
+        `return self` (so `with C(...) as y` binds y to the newly constructed object)."""
+        order = [cname] + sorted(self.ancestors(cname))
+        for c in order:
+            for (f, c2), node in self.class_nodes.items():
+                if c2 != c:
+                    continue
+                for b in node.body:
+                    if isinstance(b, ast.FunctionDef) and b.name == "__enter__":
+                        rets = [n for n in ast.walk(b) if isinstance(n, ast.Return)]
+                        return bool(rets) and all(isinstance(r.value, ast.Name) and r.value.id == "self"
+                                                  for r in rets)
+        return False
 
     # -- summaries ----------------------------------------------------------------------------------
     def summary(self, file, name):
